@@ -113,7 +113,12 @@ class Translator:
             tgt = spec.attrs["extract_assign"]
             hits = [st for st in fn.body if isinstance(st, ast.Assign) and len(st.targets) == 1 and ast.unparse(st.targets[0]) == tgt]
             if len(hits) != 1: raise Unsupported(f"{spec.func}: expected exactly one assignment to {tgt}")
-            for st in fn.body[:fn.body.index(hits[0])]:
+            before = fn.body[:fn.body.index(hits[0])]
+            if "stmts_before" in spec.attrs:         # pinned: exactly these statements (docstrings apart) precede the assignment, in this order
+                got = [" ".join(ast.unparse(st).split()) for st in before if not (isinstance(st, ast.Expr) and isinstance(st.value, ast.Constant))]
+                if got != list(spec.attrs["stmts_before"]): raise Unsupported(f"{spec.func}: statements before {tgt} changed: {got}")
+                before = []
+            for st in before:
                 ok = isinstance(st, ast.Expr) and isinstance(st.value, ast.Constant) or (
                     isinstance(st, ast.Assign) and len(st.targets) == 1 and isinstance(st.targets[0], ast.Name)
                     and ast.unparse(st.value) == f"kwargs.get('{st.targets[0].id}')" and st.targets[0].id in env) or (
@@ -346,6 +351,9 @@ class Translator:
                 return (f"(nth_error {v} {sl.value})", OPT(tv[1]))
             if isinstance(sl, ast.Name) and sl.id in env and env[sl.id][1] == NAT:            # l[i], i a natural number: IndexError beyond
                 return (f"(nth_error {v} {env[sl.id][0]})", RES(tv[1]))
+        if isinstance(tv, tuple) and tv[0] == "dict" and tv[2] == NAT and "label_eqb" in self.spec.attrs and tv[1] == self.spec.attrs["label_eqb"][1] \
+                and isinstance(sl, ast.Name) and sl.id in env and env[sl.id][1] == tv[1]:                      # D[label]: KeyError when missing
+            return (f"(ldict_get {tv[1]} {self.spec.attrs['label_eqb'][0]} {env[sl.id][0]} {v})", RES(NAT))
         if isinstance(tv, tuple) and tv[0] == "result" and isinstance(tv[1], tuple) and tv[1][0] == "list" \
                 and isinstance(sl, ast.Name) and sl.id in env and env[sl.id][1] == NAT:           # l[i][j]
             return (f"(obind {v} (fun r_ => nth_error r_ {env[sl.id][0]}))", RES(tv[1][1]))
